@@ -295,6 +295,31 @@ def ho_pattern(r, g):
         pat = Abs('x', A, Comb(f, av))
         t = Abs('x', A, Comb(Comb(g2, Bound(0)), cst)) if r.random() < 0.6 else Abs('x', A, Comb(Comb(g2, cst), Bound(0)))
         return pat, t, 'heuristic-under-binder'
+    if c < 0.89:
+        # a schematic variable under a binder against a body that mentions the bound variable ONLY inside a further
+        # abstraction or quantifier (no instantiation exists: the bound variable would escape), and controls that match
+        gg = Var('g', TFun(A, A, B))
+        inner_kind = r.choice(['lam', 'all', 'ex'])
+        uses_outer = r.random() < 0.7
+        core = Comb(Comb(gg, Bound(1) if uses_outer else Bound(0)), Bound(0))
+        if inner_kind == 'lam':
+            inner, RT = Abs('y', A, core), TFun(A, B)
+            if B != BoolType and False:
+                pass
+        else:
+            if B != BoolType:
+                gg = Var('g', TFun(A, A, BoolType))
+                core = Comb(Comb(gg, Bound(1) if uses_outer else Bound(0)), Bound(0))
+            inner = Comb(Const('all' if inner_kind == 'all' else 'exists', TFun(TFun(A, BoolType), BoolType)), Abs('y', A, core))
+            RT = BoolType
+        gsv = SVar('g1', RT)
+        wrap = r.choice(['bare', 'app'])
+        if wrap == 'bare':
+            pat, t = Abs('x', A, gsv), Abs('x', A, inner)
+        else:
+            hh = Var('k', TFun(RT, A, BoolType))
+            pat, t = Abs('x', A, Comb(Comb(hh, gsv), Bound(0))), Abs('x', A, Comb(Comb(hh, inner), Bound(0)))
+        return pat, t, 'escape-under-inner-binder'
     if c < 0.93:
         # heuristic branch with a head of two or three arguments, each an unmatched schematic variable, a compound pattern
         # or a concrete term; the target has a head of the same arity (sometimes partially applied differently)
